@@ -47,19 +47,20 @@ def Uniq (st : State) : Prop := (st.disk.map Prod.fst).Nodup ∧ (st.mem.map Pro
 
 theorem uniq_init : Uniq init := by simp [Uniq, init]
 
-theorem uniq_hashWith {st : State} (h : Uniq st) (sess : Option Sess) (cls : Cls) (p : Path) :
-    Uniq (hashWith st sess cls p).1 := by
-  unfold hashWith
-  cases hp : st.fs p with
+theorem uniq_hashWith {st : State} (h : Uniq st) (sess : Option Sess) (cls : Cls) (ps : List Path) :
+    Uniq (hashWith st sess cls ps).1 := by
+  unfold hashWith hashWithK keyOf
+  cases hp : readAll st.fs ps with
   | none => exact h
-  | some cm =>
-    obtain ⟨c, m⟩ := cm
+  | some cms =>
     simp only
-    cases hs : (sess.bind fun s => st.mem.lookup (s, (⟨cls, p, m⟩ : Key))) with
+    generalize cms.map Prod.snd = m
+    generalize cms.map Prod.fst = c
+    cases hs : (sess.bind fun s => st.mem.lookup (s, (⟨cls, ps, m⟩ : Key))) with
     | some v => exact h
     | none =>
       simp only
-      cases hd : st.disk.lookup ⟨cls, p, m⟩ with
+      cases hd : st.disk.lookup ⟨cls, ps, m⟩ with
       | some v => exact h
       | none =>
         constructor
@@ -74,8 +75,8 @@ theorem uniq_hashWith {st : State} (h : Uniq st) (sess : Option Sess) (cls : Cls
 
 theorem uniq_step {st : State} (h : Uniq st) (op : Op) : Uniq (step st op).1 := by
   cases op with
-  | hash s cls p => exact uniq_hashWith h _ _ _
-  | hashFresh cls p => exact uniq_hashWith h _ _ _
+  | hash s cls ps => exact uniq_hashWith h _ _ _
+  | hashFresh cls ps => exact uniq_hashWith h _ _ _
   | newProcess s => exact ⟨h.1, nodup_keys_filter _ h.2⟩
   | cleanUp vs => exact ⟨nodup_keys_filter _ h.1, h.2⟩
   | write p c t => exact h
@@ -88,33 +89,39 @@ theorem uniq_exec (ops : List Op) : ∀ {st : State}, Uniq st → Uniq (exec st 
   | nil => intro st h; exact h
   | cons op ops ih => intro st h; exact ih (uniq_step h op)
 
-/-- A stale path is observable: some hash operation issued right now gets an answer that is not the current
-    content (through a fresh `PersistentCache` for a stale file on disk, through the owning session for a
+/-- A stale entry is observable: some hash operation issued right now gets an answer that is not the current
+    contents (through a fresh `PersistentCache` for a stale file on disk, through the owning session for a
     stale in-memory entry). -/
-theorem stale_observable {st : State} (hu : Uniq st) {p : Path} (hs : staleAt st p = true) :
+theorem stale_observable {st : State} (hu : Uniq st) (hs : anyStale st = true) :
     ∃ op : Op, op.isHash = true ∧ (step st op).2 ≠ specOut st.fs op := by
-  unfold staleAt at hs
-  cases hp : st.fs p with
-  | none => rw [hp] at hs; cases hs
-  | some cm =>
-    obtain ⟨c, m⟩ := cm
-    rw [hp] at hs
-    simp only [Bool.or_eq_true, List.any_eq_true, Bool.and_eq_true, beq_iff_eq, bne_iff_ne, ne_eq] at hs
-    rcases hs with ⟨e, he, ⟨hpath, hmt⟩, hv⟩ | ⟨e, he, ⟨hpath, hmt⟩, hv⟩
-    · obtain ⟨⟨cls, p', m'⟩, v⟩ := e
-      simp only at hpath hmt hv
-      subst hpath hmt
-      refine ⟨.hashFresh cls p', rfl, ?_⟩
-      have hl := lookup_of_mem_nodup hu.1 he
-      simp only [step, specOut, hashWith, hp, Option.bind_none, hl, Option.map_some]
-      intro h; cases h; exact hv rfl
-    · obtain ⟨⟨s, ⟨cls, p', m'⟩⟩, v⟩ := e
-      simp only at hpath hmt hv
-      subst hpath hmt
-      refine ⟨.hash s cls p', rfl, ?_⟩
-      have hl := lookup_of_mem_nodup hu.2 he
-      simp only [step, specOut, hashWith, hp, Option.bind_some, hl, Option.map_some]
-      intro h; cases h; exact hv rfl
+  unfold anyStale at hs
+  simp only [Bool.or_eq_true, List.any_eq_true] at hs
+  have key : ∀ (k : Key) (v : List Content), staleEntry st.fs k v = true →
+      ∃ cms, readAll st.fs k.paths = some cms ∧ k = ⟨k.cls, k.paths, cms.map Prod.snd⟩ ∧ v ≠ cms.map Prod.fst := by
+    intro k v h
+    unfold staleEntry at h
+    cases hr : readAll st.fs k.paths with
+    | none => rw [hr] at h; cases h
+    | some cms =>
+      rw [hr] at h
+      simp only [Bool.and_eq_true, beq_iff_eq, bne_iff_ne, ne_eq] at h
+      refine ⟨cms, rfl, ?_, h.2⟩
+      rw [h.1]
+  rcases hs with ⟨e, he, hst⟩ | ⟨e, he, hst⟩
+  · obtain ⟨k, v⟩ := e
+    obtain ⟨cms, hr, hk, hv⟩ := key k v hst
+    refine ⟨.hashFresh k.cls k.paths, rfl, ?_⟩
+    have hl := lookup_of_mem_nodup hu.1 he
+    rw [hk] at hl
+    simp only [step, specOut, hashWith, hashWithK, keyOf, hr, Option.bind_none, hl, Option.map_some]
+    intro h; cases h; exact hv rfl
+  · obtain ⟨⟨s, k⟩, v⟩ := e
+    obtain ⟨cms, hr, hk, hv⟩ := key k v hst
+    refine ⟨.hash s k.cls k.paths, rfl, ?_⟩
+    have hl := lookup_of_mem_nodup hu.2 he
+    rw [hk] at hl
+    simp only [step, specOut, hashWith, hashWithK, keyOf, hr, Option.bind_some, hl, Option.map_some]
+    intro h; cases h; exact hv rfl
 
 theorem freshFrom_append (a b : List Op) : ∀ st, freshFrom st (a ++ b) = (freshFrom st a && freshFrom (exec st a) b) := by
   induction a with
@@ -140,10 +147,9 @@ theorem not_fresh_observable (ops : List Op) : ∀ {st : State}, Uniq st → fre
     intro st hu hf
     simp only [freshFrom, Bool.and_eq_false_iff] at hf
     rcases hf with hf | hf
-    · -- `x` itself leaves a touched path stale
-      simp only [List.all_eq_false, Bool.not_eq_true', Bool.not_eq_false] at hf
-      obtain ⟨p, _, hst⟩ := hf
-      obtain ⟨op, hop, hne⟩ := stale_observable (uniq_step hu x) (by simpa using hst)
+    · -- the file operation `x` itself leaves an entry stale
+      simp only [Bool.or_eq_false_iff, Bool.not_eq_false'] at hf
+      obtain ⟨op, hop, hne⟩ := stale_observable (uniq_step hu x) hf.2
       refine ⟨[x], op, ?_, hop, ?_⟩
       · exact ⟨xs, rfl⟩
       · simp only [List.cons_append, List.nil_append, run, specRun, ne_eq, List.cons.injEq, and_true, not_and]
